@@ -509,9 +509,9 @@ class ThrottleStreamIO(StreamIO):
         ... )
     """
 
-    def __init__(self, *args, throttles={}, **kwargs):
+    def __init__(self, *args, throttles=None, **kwargs):
         super().__init__(*args, **kwargs)
-        self.throttles = throttles
+        self.throttles = {} if throttles is None else throttles
 
     async def wait(self, name):
         """
